@@ -108,6 +108,9 @@ PInvUnambiguous ==
 Small == LookAlikes \cup Closure(Seeds, 1)
 PInvUnambiguousPairs == (row > 0 /\ PCur \in Small) => \A T2 \in Small : T2 # PCur => Disjoint(PCur, T2)
 
+\* and literally the definition, on the look-alikes
+PInvUnambiguousLookAlikes == row = 0 => Unambiguous(LookAlikes)
+
 PInit == row = 0
 PNext == \/ row = 0 /\ row' \in {-c : c \in 1..Chunks}
          \/ row < 0 /\ row' \in {i \in 1..PN : i % Chunks = (-row) % Chunks}
